@@ -503,6 +503,60 @@ pub fn run_c09(ctx: &Ctx) -> i32 {
             }
         }
     }
+    // from chronyd and /sys to the record: the real polling loop AND the real writer loop, with the PHC configured and
+    // chronyd naming it as its reference, for every way the error-bound attribute can be unreadable (missing; read(2)
+    // failing with each of several errno values) and the other non-measurements (silence, another reply, an
+    // unsynchronised report): as long as no complete measurement existed, everything published is Unknown
+    let mut pipeline_cases = 0u64;
+    {
+        let mut alpha: Vec<Step> = vec![];
+        for e in [0, libc::EIO, libc::EOPNOTSUPP, libc::ENOSYS, libc::EACCES, libc::ENODEV, libc::EBUSY, libc::EAGAIN, libc::ENOMEM, libc::EINVAL] {
+            alpha.push(Step { ans: Ans::TrackA, phc_readable: false, gap_ms: 1000, latency_ms: 0, phc_read_errno: e, wall_step_ms: 0 });
+        }
+        for ans in [Ans::Silent, Ans::Other, Ans::Unsync] {
+            alpha.push(Step { ans, phc_readable: true, gap_ms: 1000, latency_ms: 0, phc_read_errno: 0, wall_step_ms: 0 });
+        }
+        alpha.push(Step { ans: Ans::Silent, phc_readable: true, gap_ms: 5100, latency_ms: 0, phc_read_errno: 0, wall_step_ms: 0 });
+        let seqs3 = sequences(&alpha, ctx.tier.pick(2, 3));
+        let pdir = dir.join("c09-pipeline");
+        let _ = std::fs::create_dir_all(&pdir);
+        for steps in &seqs3 {
+            pipeline_cases += 1;
+            let doc = |k: usize| json!({"check": "C09", "phase": "poller and writer", "phc_configured": true, "failing_step": k,
+                "steps": steps.iter().map(|s| json!({"answer": format!("{:?}", s.ans), "phc_file_readable": s.phc_readable, "phc_read_errno": s.phc_read_errno, "gap_ms": s.gap_ms, "reply_latency_ms": s.latency_ms})).collect::<Vec<_>>()});
+            let res = match poller_run(steps, true, &pdir, false) {
+                Ok(r) => r,
+                Err(e) => {
+                    sink.add("C09:pipeline:poller-panic".into(), e, doc(0));
+                    continue;
+                }
+            };
+            check_nothing_held("C09", &mut sink, doc(0));
+            let msgs: Vec<Message> = res.iter().flat_map(|(m, _)| m.iter().cloned()).collect();
+            let per_step: Vec<usize> = res.iter().map(|(m, _)| m.len()).collect();
+            vclock::arm(VClock { real_ns: R0 + 10 * S, mono_ns: 5010 * S, auto_advance_ns: 0, fail_errno: 0, fail_clock: -1 });
+            let r = std::panic::catch_unwind(|| pipeline::published_for(msgs, 1000));
+            vclock::disarm();
+            match r {
+                Ok(recs) => {
+                    let mut i = 0;
+                    'steps: for (k, cnt) in per_step.iter().enumerate() {
+                        for _ in 0..*cnt {
+                            if let Some(rec) = recs.get(i) {
+                                if rec.status != 0 {
+                                    sink.add(format!("C09:pipeline:trusted-before-first-measurement:{:?}{}", steps[k].ans, if steps[k].phc_readable { String::new() } else { format!("-phc-errno-{}", steps[k].phc_read_errno) }),
+                                        format!("daemon start with the PHC configured and chronyd's reference, polls {:?}: after poll {k} the published status is {} (bound {} ns) although no complete measurement ever existed", steps.iter().map(|s| if s.phc_readable { format!("{:?}", s.ans) } else if s.phc_read_errno == 0 { format!("{:?}(attribute missing)", s.ans) } else { format!("{:?}(read fails, errno {})", s.ans, s.phc_read_errno) }).collect::<Vec<_>>(), status_name(rec.status), rec.bound), doc(k));
+                                    break 'steps;
+                                }
+                            }
+                            i += 1;
+                        }
+                    }
+                }
+                Err(_) => sink.add("C09:pipeline:writer-panic".into(), "the writer loop panicked".into(), doc(0)),
+            }
+        }
+    }
     // the daemon as it really restarts: the real writer loop publishing through the real ShmWriter (not a recording
     // sink) over whatever the previous lifetime left at the segment path - nothing, the placeholder of a lifetime
     // that never synchronised, a good record, a record left mid-update - followed by every sequence of
@@ -606,6 +660,7 @@ pub fn run_c09(ctx: &Ctx) -> i32 {
     let coverage = cov(vec![
         ("first_report_not_representable_cases", json!(extreme_cases)),
         ("restarts_through_the_real_ShmWriter", json!(restart_cases)),
+        ("poller_and_writer_lifetimes_without_a_measurement", json!({"lifetimes": pipeline_cases, "rule": "every sequence of 2 (thorough 3) polls over: chronyd names the configured PHC and its error-bound attribute is missing / fails read(2) with EIO, EOPNOTSUPP, ENOSYS, EACCES, ENODEV, EBUSY, EAGAIN, ENOMEM, EINVAL; silence (1 s and 5.1 s gaps); a non-tracking reply; an unsynchronised report - through the real polling loop and the real writer loop; every publication must be Unknown"})),
         ("states", json!(distinct.len().max(1))),
         ("transitions", json!(n * depth as u64)),
         ("traces_validated_against_impl", json!(n)),
@@ -1645,7 +1700,7 @@ fn replay(ctx: &Ctx, path: &std::path::Path) -> i32 {
     let doc: Value = serde_json::from_str(&std::fs::read_to_string(path).expect("replay file")).expect("json");
     let c = &doc["case"];
     match c["check"].as_str().unwrap_or("") {
-        "C08" | "C09" => {
+        "C08" | "C09" if !c["steps"].is_array() => {
             let key = if c["check"] == "C08" { "outcomes" } else { "outcomes_since_start" };
             if let Some(a) = c[key].as_array() {
                 let seq: Vec<Out> = a.iter().map(|s| Out::from_short(s.as_str().unwrap())).collect();
@@ -1709,7 +1764,7 @@ fn replay(ctx: &Ctx, path: &std::path::Path) -> i32 {
             }
             0
         }
-        "C12" | "C13" if c["steps"].is_array() => {
+        "C08" | "C09" | "C12" | "C13" if c["steps"].is_array() => {
             // a lifetime of the real polling loop, run twice
             let steps: Vec<Step> = c["steps"].as_array().unwrap().iter().map(|s| Step {
                 ans: match s["answer"].as_str().unwrap_or("") { "TrackA" => Ans::TrackA, "TrackB" => Ans::TrackB, "Silent" => Ans::Silent, "Unsync" => Ans::Unsync, "Stale" => Ans::Stale, _ => Ans::Other },
